@@ -75,6 +75,9 @@ pub struct Oracle {
     c06_epochs_done: BTreeSet<u64>,
     c06_artifacts_done: BTreeSet<String>,
     pub avk_by_epoch: BTreeMap<u64, String>,
+    /// protocol parameters the aggregator published, by epoch-settings index (first value seen
+    /// in its `epoch_setting` table); index i is in force for signing epoch i + 1
+    pub in_force: BTreeMap<u64, mithril_common::entities::ProtocolParameters>,
 }
 
 impl Oracle {
@@ -99,6 +102,7 @@ impl Oracle {
             c06_epochs_done: BTreeSet::new(),
             c06_artifacts_done: BTreeSet::new(),
             avk_by_epoch: BTreeMap::new(),
+            in_force: BTreeMap::new(),
         }
     }
 
@@ -117,6 +121,34 @@ impl Oracle {
     }
 
     // ------------------------------------------------------------------ model
+
+    /// protocol parameters in force for *signing* epoch `epoch`: what the aggregator published
+    /// for the registration round that produced this epoch's signers
+    pub fn params(&self, w: &World, epoch: u64) -> mithril_common::entities::ProtocolParameters {
+        epoch.checked_sub(1).and_then(|i| self.in_force.get(&i).cloned()).unwrap_or_else(|| w.sc.parameters())
+    }
+
+    fn observe_epoch_settings(&mut self, w: &World, db: &crate::db::Db, step: usize) {
+        for (index, json) in db.epoch_settings() {
+            let Ok(p) = serde_json::from_str::<mithril_common::entities::ProtocolParameters>(&json) else { continue };
+            match self.in_force.get(&index).cloned() {
+                None => {
+                    if p != w.sc.parameters() {
+                        self.probe("epoch_settings_with_reconfigured_parameters");
+                    }
+                    self.in_force.insert(index, p);
+                }
+                Some(old) if old != p => {
+                    self.probe("epoch_settings_rewritten");
+                    if self.is("C14") {
+                        self.report(step, "parameters-in-force", format!(
+                            "the protocol parameters published for epoch-settings index {index} (signing epoch {}) changed from {old:?} to {p:?} after they had been published", index + 1));
+                    }
+                }
+                _ => {}
+            }
+        }
+    }
 
     /// key in force for `party` at recording epoch `rec`: the key of the last acknowledged
     /// (201), undamaged registration delivery.
@@ -162,7 +194,7 @@ impl Oracle {
         let v = if signers.is_empty() {
             None
         } else {
-            SignerBuilder::new(&signers, &w.sc.parameters())
+            SignerBuilder::new(&signers, &self.params(w, epoch))
                 .ok()
                 .map(|b| b.compute_aggregate_verification_key())
                 .and_then(|avk| avk_hex(&avk))
@@ -190,6 +222,7 @@ impl Oracle {
     pub fn check(&mut self, w: &mut World) {
         let Some(db) = w.db() else { return };
         let step = w.step;
+        self.observe_epoch_settings(w, &db, step);
         let certs = db.certificates();
         let open_messages = db.open_messages();
         let sigs = db.single_signatures();
@@ -357,6 +390,7 @@ impl Oracle {
         let e = w.epoch;
         let bound = 4 * (w.sc.entity_types.len() + 3);
         let signers = Self::model_signers(w, e, step);
+        let pp = self.params(w, e);
         let last_error = w.last_tick.1.as_deref().map(crate::world::first_line).unwrap_or("none".into());
         // R1
         let mut waiting_without_quorum = false;
@@ -366,8 +400,8 @@ impl Oracle {
             let mut union: BTreeSet<u64> = BTreeSet::new();
             for s in sigs.iter().filter(|s| s.open_message_id == om.id) {
                 let body = serde_json::json!({"signature": s.signature}).to_string();
-                if let Some(ix) = self.delivered_valid_indexes(w, &signers, &s.signer_id, &body, &message) {
-                    union.extend(ix.into_iter().filter(|i| *i < w.sc.m));
+                if let Some(ix) = self.delivered_valid_indexes(&pp, &signers, &s.signer_id, &body, &message) {
+                    union.extend(ix.into_iter().filter(|i| *i < pp.m));
                 }
             }
             // what the aggregator acknowledged as registered (201) for this very entity also counts:
@@ -379,21 +413,21 @@ impl Oracle {
                     && d.status == 201
                 {
                     let pid = w.parties[*producer].party_id.clone();
-                    if let Some(ix) = self.delivered_valid_indexes(w, &signers, &pid, &d.body, &message) {
-                        acknowledged.extend(ix.into_iter().filter(|i| *i < w.sc.m));
+                    if let Some(ix) = self.delivered_valid_indexes(&pp, &signers, &pid, &d.body, &message) {
+                        acknowledged.extend(ix.into_iter().filter(|i| *i < pp.m));
                     }
                 }
             }
-            if union.len() as u64 >= w.sc.k && om.entity.signing_epoch() == e {
+            if union.len() as u64 >= pp.k && om.entity.signing_epoch() == e {
                 self.report(step, "no-progress-after-faults", format!(
                     "faults have stopped; the signatures stored for {} cover {} lottery indexes (k = {}), yet it is still not certified after at least {bound} further ticks (quiescence phase {phase}); state '{}', last tick error: {last_error}",
-                    om.entity.label(), union.len(), w.sc.k, w.last_tick.0));
+                    om.entity.label(), union.len(), pp.k, w.last_tick.0));
                 return;
             }
-            if acknowledged.len() as u64 >= w.sc.k && om.entity.signing_epoch() == e {
+            if acknowledged.len() as u64 >= pp.k && om.entity.signing_epoch() == e {
                 self.report(step, "no-progress-after-faults", format!(
                     "faults have stopped; the aggregator acknowledged (201) signatures for {} covering {} lottery indexes (k = {}) but only {} are still stored and the round is not certified after at least {bound} further ticks (quiescence phase {phase}); state '{}', last tick error: {last_error}",
-                    om.entity.label(), acknowledged.len(), w.sc.k, union.len(), w.last_tick.0));
+                    om.entity.label(), acknowledged.len(), pp.k, union.len(), w.last_tick.0));
                 return;
             }
             waiting_without_quorum = true;
@@ -496,6 +530,7 @@ impl Oracle {
         let e = c.epoch;
         // -- C14-2 quorum recount
         let signers = Self::model_signers(w, entity.signing_epoch(), step);
+        let pp = self.params(w, entity.signing_epoch());
         let registered: BTreeSet<&str> = signers.iter().map(|s| s.party_id.as_str()).collect();
         let mut union: BTreeSet<u64> = BTreeSet::new();
         let message = self.open_messages.values().find(|x| x.0 == entity).map(|x| x.1.clone()).unwrap_or_default();
@@ -508,15 +543,15 @@ impl Oracle {
                 // what was actually delivered (possibly damaged in transit), judged under the
                 // producer's registered key
                 let producer_id = w.parties[*producer].party_id.clone();
-                if let Some(indexes) = self.delivered_valid_indexes(w, &signers, &producer_id, &d.body, &message) {
-                    union.extend(indexes.into_iter().filter(|i| *i < w.sc.m));
+                if let Some(indexes) = self.delivered_valid_indexes(&pp, &signers, &producer_id, &d.body, &message) {
+                    union.extend(indexes.into_iter().filter(|i| *i < pp.m));
                 }
             }
         }
-        if (union.len() as u64) < w.sc.k {
+        if (union.len() as u64) < pp.k {
             self.report(step, "quorum", format!(
                 "certificate {} for {} was sealed although the signatures delivered for it by signers registered for epoch {} cover only {} distinct lottery indexes (k = {})",
-                short(&c.hash), entity.label(), entity.signing_epoch(), union.len(), w.sc.k));
+                short(&c.hash), entity.label(), entity.signing_epoch(), union.len(), pp.k));
         }
         // -- C14-3 aggregate key and parameters in force
         match self.model_avk(w, e) {
@@ -528,9 +563,19 @@ impl Oracle {
             }
             None => self.report(step, "avk-in-force", format!("certificate {} of epoch {e}: the model has no acknowledged registration for that epoch", short(&c.hash))),
         }
-        let pp: serde_json::Value = serde_json::from_str(&c.protocol_parameters_json).unwrap_or_default();
-        if pp["k"].as_u64() != Some(w.sc.k) || pp["m"].as_u64() != Some(w.sc.m) || (pp["phi_f"].as_f64().unwrap_or(-1.0) - w.sc.phi_f).abs() > 1e-9 {
-            self.report(step, "parameters-in-force", format!("certificate {} carries protocol parameters {} instead of k={} m={} phi_f={}", short(&c.hash), c.protocol_parameters_json, w.sc.k, w.sc.m, w.sc.phi_f));
+        // the parameters the aggregator published for the registration round of this epoch's
+        // signers (epoch-settings index e - 1, first value seen); unknown index (never published
+        // while the harness looked): the scenario's initial configuration
+        let want = self.params(w, e);
+        if e == 0 || !self.in_force.contains_key(&(e - 1)) {
+            self.probe("parameters_in_force_unknown_index");
+        }
+        let cp: serde_json::Value = serde_json::from_str(&c.protocol_parameters_json).unwrap_or_default();
+        if cp["k"].as_u64() != Some(want.k) || cp["m"].as_u64() != Some(want.m) || (cp["phi_f"].as_f64().unwrap_or(-1.0) - want.phi_f).abs() > 1e-9 {
+            self.report(step, "parameters-in-force", format!("certificate {} of epoch {e} carries protocol parameters {} instead of the ones published for that epoch's signers: k={} m={} phi_f={}", short(&c.hash), c.protocol_parameters_json, want.k, want.m, want.phi_f));
+        }
+        if want != w.sc.parameters() {
+            self.probe("certificate_under_reconfigured_parameters");
         }
         // -- C14-4 parent link
         let first_of = |epoch: u64| all.iter().filter(|x| x.epoch == epoch).min_by_key(|x| x.rowid);
@@ -577,7 +622,7 @@ impl Oracle {
         }
         // (b) signer path: the signer list as the aggregator publishes it (JSON in the loop, served
         // order), plus permutations of it
-        let params = w.sc.parameters();
+        let params = self.params(w, e);
         if w.view_epoch() == e
             && let Some((pe, current, next)) = w.published_signers()
             && pe == e
@@ -697,14 +742,14 @@ impl Oracle {
 
     /// Lottery indexes of the signature carried by a delivered `register-signatures` body, if that
     /// signature verifies for `message` under the key `party_id` registered; `None` otherwise.
-    fn delivered_valid_indexes(&mut self, w: &World, signers: &[SignerWithStake], party_id: &str, body: &str, message: &str) -> Option<Vec<u64>> {
+    fn delivered_valid_indexes(&mut self, pp: &mithril_common::entities::ProtocolParameters, signers: &[SignerWithStake], party_id: &str, body: &str, message: &str) -> Option<Vec<u64>> {
         let v: serde_json::Value = serde_json::from_str(body).ok()?;
         let sig_hex = v["signature"].as_str()?.to_string();
         let key = (sig_hex.clone(), party_id.to_string(), message.to_string());
         if let Some(r) = self.sig_cache.get(&key) {
             return r.clone();
         }
-        let r = match Self::verify_under_key(w, signers, party_id, &sig_hex, &[], message) {
+        let r = match Self::verify_under_key(pp, signers, party_id, &sig_hex, &[], message) {
             Ok(()) => {
                 let sig: Option<ProtocolSingleSignature> = sig_hex.clone().try_into().ok();
                 sig.map(|s| s.get_concatenation_signature_indices())
@@ -731,10 +776,11 @@ impl Oracle {
         if signers.is_empty() {
             return;
         }
-        let Ok(builder) = SignerBuilder::new(&signers, &w.sc.parameters()) else { return };
+        let pp = self.params(w, entity.signing_epoch());
+        let Ok(builder) = SignerBuilder::new(&signers, &pp) else { return };
         let multi = builder.build_multi_signer();
         let avk = builder.compute_aggregate_verification_key();
-        let params: mithril_common::crypto_helper::ProtocolParameters = w.sc.parameters().into();
+        let params: mithril_common::crypto_helper::ProtocolParameters = pp.clone().into();
         // the delivery log of this round (+ what arrived for other messages meanwhile)
         struct Item {
             sig: SingleSignature,
@@ -753,7 +799,7 @@ impl Oracle {
             let Ok(psig): Result<ProtocolSingleSignature, _> = sig_hex.to_string().try_into() else { continue };
             let indexes: Vec<u64> = v["indexes"].as_array().map(|a| a.iter().filter_map(|x| x.as_u64()).collect()).unwrap_or_default();
             let producer_id = w.parties[*producer].party_id.clone();
-            let valid = if de == entity { self.delivered_valid_indexes(w, &signers, &producer_id, &d.body, &message) } else { None };
+            let valid = if de == entity { self.delivered_valid_indexes(&pp, &signers, &producer_id, &d.body, &message) } else { None };
             // completeness: an honest, undamaged signature of a registered signer verifies
             if de == entity
                 && !d.damaged
@@ -765,7 +811,7 @@ impl Oracle {
             }
             log.push(Item {
                 sig: SingleSignature::new(party.to_string(), psig, indexes),
-                valid: valid.map(|i| i.into_iter().filter(|x| *x < w.sc.m).collect()),
+                valid: valid.map(|i| i.into_iter().filter(|x| *x < pp.m).collect()),
                 what: format!("{}{}{}", short(&producer_id), if d.damaged { "~damaged" } else { "" }, if de != entity { "~other-message" } else { "" }),
             });
         }
@@ -803,10 +849,10 @@ impl Oracle {
                     self.report(step, "aggregate-does-not-verify", format!("aggregation over the first {p} deliveries for {} succeeded but its result does not verify [{}]", entity.label(), describe()));
                 }
                 Err(e) => {
-                    if union.len() as u64 >= w.sc.k {
+                    if union.len() as u64 >= pp.k {
                         self.report(step, "quorum-but-aggregation-fails", format!(
                             "the valid signatures among the first {p} deliveries for {} cover {} distinct lottery indexes (k = {}) but aggregation fails: {e} [{}]",
-                            entity.label(), union.len(), w.sc.k, describe()));
+                            entity.label(), union.len(), pp.k, describe()));
                     }
                     if let Some(q) = succeeded_at {
                         self.report(step, "more-material-breaks-aggregation", format!(
@@ -883,10 +929,10 @@ impl Oracle {
                 Ok(true) => {}
                 Ok(false) => self.report(step, "aggregate-does-not-verify", format!("aggregation over index-restricted copies for {} succeeded but its result does not verify [{describe}]", entity.label())),
                 Err(e) => {
-                    if full_union.len() as u64 >= w.sc.k {
+                    if full_union.len() as u64 >= pp.k {
                         self.report(step, "quorum-but-aggregation-fails", format!(
                             "index-restricted copies of the delivered signatures for {} cover {} distinct lottery indexes (k = {}) but aggregation fails: {e} [{describe}]",
-                            entity.label(), full_union.len(), w.sc.k));
+                            entity.label(), full_union.len(), pp.k));
                     }
                 }
             }
@@ -897,7 +943,7 @@ impl Oracle {
         let mut added = 0;
         for item in log.iter().filter(|i| i.valid.as_ref().is_some_and(|v| !v.is_empty())).take(3) {
             let won = item.sig.signature.get_concatenation_signature_indices();
-            let Some(extra) = (0..w.sc.m).find(|x| !won.contains(x)) else { continue };
+            let Some(extra) = (0..pp.m).find(|x| !won.contains(x)) else { continue };
             let mut keep = won.clone();
             keep.push(extra);
             keep.sort_unstable();
@@ -905,7 +951,7 @@ impl Oracle {
                 // the delivered signature may itself have claimed only a part of its wins: the copy
                 // is invalid material only if it really does not verify
                 let hex = it.sig.signature.to_json_hex().unwrap_or_default();
-                if Self::verify_under_key(w, &signers, &it.sig.party_id, &hex, &[], &message).is_ok() {
+                if Self::verify_under_key(&pp, &signers, &it.sig.party_id, &hex, &[], &message).is_ok() {
                     continue;
                 }
                 it.valid = None;
@@ -923,7 +969,7 @@ impl Oracle {
                 (Ok(true), Ok(false)) => self.report(step, "aggregate-does-not-verify", format!("adding copies that claim a lottery index they did not win makes the aggregate for {} unverifiable", entity.label())),
                 (Ok(true), Err(e)) => self.report(step, "more-material-breaks-aggregation", format!("adding copies that claim a lottery index they did not win makes the aggregation for {} fail: {e}", entity.label())),
                 (Err(_), Ok(v)) => {
-                    if full_union.len() as u64 >= w.sc.k && *v {
+                    if full_union.len() as u64 >= pp.k && *v {
                         // fine: quorum was there
                     } else {
                         self.report(step, "aggregation-without-quorum", format!("aggregation for {} fails on the genuine deliveries and succeeds (verifies: {v}) once copies claiming un-won indexes are added", entity.label()));
@@ -936,15 +982,15 @@ impl Oracle {
 
     // ---------------------------------------------------------------- C16
 
-    fn verify_under_key(w: &World, signers: &[SignerWithStake], party_id: &str, signature_hex: &str, indexes: &[u64], message: &str) -> Result<(), String> {
+    fn verify_under_key(pp: &mithril_common::entities::ProtocolParameters, signers: &[SignerWithStake], party_id: &str, signature_hex: &str, indexes: &[u64], message: &str) -> Result<(), String> {
         let Some(me) = signers.iter().find(|s| s.party_id == party_id) else {
             return Err(format!("party {} has no key registered for that epoch", short(party_id)));
         };
-        let builder = SignerBuilder::new(signers, &w.sc.parameters()).map_err(|e| format!("{e:#}"))?;
+        let builder = SignerBuilder::new(signers, pp).map_err(|e| format!("{e:#}"))?;
         let avk = builder.compute_aggregate_verification_key();
         let sig: ProtocolSingleSignature = signature_hex.to_string().try_into().map_err(|e| format!("undecodable signature: {e:#}"))?;
         let _ = indexes;
-        let params: mithril_common::crypto_helper::ProtocolParameters = w.sc.parameters().into();
+        let params: mithril_common::crypto_helper::ProtocolParameters = pp.clone().into();
         let vk = me.verification_key_for_concatenation.to_owned().into_inner().vk;
         sig.verify(&params, &vk, &me.stake, &avk, message.as_bytes())
         .map_err(|e| format!("{e:#}"))
@@ -964,8 +1010,9 @@ impl Oracle {
             let Some(om) = oms.iter().find(|o| o.id == s.open_message_id) else { continue };
             let message = self.open_messages.get(&om.id).map(|x| x.1.clone()).unwrap_or_default();
             let signers = Self::model_signers(w, om.entity.signing_epoch(), step);
+            let pp = self.params(w, om.entity.signing_epoch());
             self.probe("signature_rows_judged");
-            if let Err(why) = Self::verify_under_key(w, &signers, &s.signer_id, &s.signature, &s.lottery_indexes, &message) {
+            if let Err(why) = Self::verify_under_key(&pp, &signers, &s.signer_id, &s.signature, &s.lottery_indexes, &message) {
                 // who really made it?
                 let producer = w.deliveries.iter().find_map(|d| match &d.msg.kind {
                     MsgKind::Signature { signature_hex, producer, .. } if *signature_hex == s.signature => Some(*producer),
@@ -1116,11 +1163,12 @@ impl Oracle {
                 continue;
             }
             // (ii) made with the key registered for the epoch whose stake distribution is in force
-            if let Err(why) = Self::verify_under_key(w, &signers, &me, &signature, &[], &message) {
+            let pp = self.params(w, e);
+            if let Err(why) = Self::verify_under_key(&pp, &signers, &me, &signature, &[], &message) {
                 let mut made_with = String::new();
                 for (label, other) in [("the following epoch", e + 1), ("the preceding epoch", e.saturating_sub(1))] {
                     let s2 = Self::c20_signers(w, &calls, other, idx);
-                    if s2.iter().any(|s| s.party_id == me) && Self::verify_under_key(w, &s2, &me, &signature, &[], &message).is_ok() {
+                    if s2.iter().any(|s| s.party_id == me) && Self::verify_under_key(&self.params(w, other), &s2, &me, &signature, &[], &message).is_ok() {
                         made_with = format!("; it verifies under the key set of {label}");
                     }
                 }
